@@ -33,6 +33,7 @@ type kop struct {
 
 type c20Prog struct {
 	Instances int   `json:"instances"`
+	Plain     bool  `json:"plain,omitempty"` // the shared datastore does not offer batches (default: it does, like the usual ones)
 	Ops       []kop `json:"ops"`
 }
 
@@ -42,7 +43,7 @@ var idPool = []string{"a", "b", "ab", "userA", "a/b", "x/y/z", "é", "日本", "
 	"c", "d", "e"}
 
 func genC20(t *rapid.T) c20Prog {
-	p := c20Prog{Instances: rapid.IntRange(1, 3).Draw(t, "instances")}
+	p := c20Prog{Instances: rapid.IntRange(1, 3).Draw(t, "instances"), Plain: rapid.IntRange(0, 2).Draw(t, "plainStore") == 0}
 	n := rapid.IntRange(3, 30).Draw(t, "nops")
 	kinds := []string{"create", "create", "create", "get", "get", "has", "has", "has", "reopen", "burst", "identity", "createfail", "createfail"}
 	bursts := 0
@@ -67,8 +68,11 @@ func genC20(t *rapid.T) c20Prog {
 // C20 — key material and identities are stable and self-consistent.
 func runC20(tb ev.TB, p c20Prog) ev.Result {
 	ctx := context.Background()
-	flaky := &flakyDS{Datastore: dssync.MutexWrap(ds.NewMapDatastore())}
+	flaky := &flakyDS{Batching: dssync.MutexWrap(ds.NewMapDatastore())}
 	var store ds.Datastore = flaky
+	if p.Plain {
+		store = plainDS{flaky}
+	}
 	mk := func() *keystore.Keystore {
 		k, err := keystore.NewKeystore(store)
 		if err != nil {
@@ -344,17 +348,20 @@ func runC20(tb ev.TB, p c20Prog) ev.Result {
 }
 
 // flakyDS makes the next failPuts Put calls fail.
+// flakyDS is a datastore that offers batches, as the usual datastores do (plainDS hides that capability).
 type flakyDS struct {
-	ds.Datastore
+	ds.Batching
 	failPuts int
 }
+
+type plainDS struct{ ds.Datastore }
 
 func (f *flakyDS) Put(ctx context.Context, k ds.Key, v []byte) error {
 	if f.failPuts > 0 {
 		f.failPuts--
 		return errors.New("injected datastore write failure")
 	}
-	return f.Datastore.Put(ctx, k, v)
+	return f.Batching.Put(ctx, k, v)
 }
 
 func TestC20(t *testing.T) {
